@@ -91,6 +91,9 @@ def gen_font(rng, modifier=False):
         anchors = [(k, coord(rng), coord(rng)) for k in rng.sample(KEYS, rng.randint(0, 3))]
         if anchors and rng.random() < 0.1:
             anchors.append((anchors[0][0], coord(rng), coord(rng)))     # duplicate name
+        if anchors and rng.random() < 0.3:
+            # an anchor with an IDENTIFIER (any UFO 3 anchor may carry one) on a glyph whose lib has no public.objectLibs
+            anchors[0] = anchors[0][:3] + ("ANCHOR-ID-%d" % len(glyphs),)
         glyphs.append({"name": nmame, "unicodes": [u], "width": 500, "anchors": anchors, "cat": "base"})
     for nmame, u in rng.sample(marks, nm):
         anchors = [("_" + k, coord(rng), coord(rng)) for k in rng.sample(KEYS, rng.randint(1, 2))]
